@@ -3,10 +3,20 @@ import DryocVerif.Bytes
 Model of /repo/src/bytes_serde.rs at the level of serde's data model, and of the
 `TryFrom<&[u8]>` / `From<&[u8]>` conversions used by `from_bytes`.
 
+WHICH CONTAINERS HAVE WHICH IMPL (bytes_serde.rs, complete list):
+  * `Serialize` AND `Deserialize`: `StackByteArray<N>`, `HeapBytes`, `LockedBytes` (= `Locked<HeapBytes>`),
+    `Locked<HeapByteArray<N>>`;
+  * `Serialize` ONLY (no `Deserialize`): unlocked `HeapByteArray<N>`, `LockedRO<HeapBytes>`.
+Everything else is serde's own: `Vec<u8>` (`Model/EncodingVec.lean`, `deVecFixed`) and plain `[u8; N]` — the classic
+key / nonce / tag types (`crypto_box::PublicKey`, `Nonce`, `Mac`, …) are type ALIASES of arrays and implement
+`ByteArray<N>` too — which goes through serde's tuple impl (`deArray` below).
+
 `Enc` is what a deserializer hands to `deserialize_bytes`' visitor:
   * `seq es`   — an element sequence (serde_json: a JSON array of numbers)  → `visit_seq`
-  * `bytes bs` — a byte string (bincode; serde_json: a JSON string)          → `visit_bytes`
-serde_json / bincode themselves are trusted to produce these.
+  * `bytes bs` — a byte string (bincode; serde_json TEXT deserialiser: a JSON string) → `visit_bytes`
+serde_json / bincode themselves are trusted to produce these.  A THIRD route exists and is NOT an `Enc`: a JSON string
+that went through `serde_json::Value` (`from_value`) is handed to `visit_string`, which none of dryoc's visitors
+implement (serde's default answers "invalid type") — see `JsonField`, `Route`, `encOfJson` below.
 -/
 namespace DryocVerif.Model.Encoding
 open DryocVerif
@@ -41,8 +51,57 @@ def deHeap : Enc → Outcome Bytes
   | .seq es => .ok (visitSeqHeapGo es [])
   | .bytes bs => .ok bs
 
-/-- `Serialize`: every container serialises as a byte string of its contents -/
+/-- `Serialize` of the six dryoc containers: `serializer.serialize_bytes(self.as_slice())`.  This is the token given
+to the SERIALIZER; what the format makes of it differs: bincode writes a byte string (length prefix + bytes), and
+serde_json's `serialize_bytes` writes a JSON ARRAY of numbers, which comes back as an element sequence — that is
+`Model.EncodingVec.serField'` (format-aware); `ser` alone is the bincode shape. -/
 def ser (bs : Bytes) : Enc := .bytes bs
+
+/-- serde's `impl Deserialize for [T; N]` at `T = u8` (plain arrays: the classic key / nonce / tag aliases):
+`deserialize_tuple(N, ArrayVisitor)` — a sequence of EXACTLY `N` elements (`visit_seq` pulls `N` elements, a missing
+one is `invalid_length`; serde_json then refuses trailing elements; in bincode a tuple has NO length prefix, the
+deserialiser hands over exactly the next `N` bytes or fails at the end of input).  A byte / string token is
+"invalid type".  NOTE: implemented by serde only for `N ≤ 32`; a struct with a `[u8; 64]` field (e.g.
+`SignedMessage<[u8; 64], _>`, `SigningKeyPair<_, [u8; 64]>`) has no derived `Deserialize`: the derive's
+`where`-bound on the field type is not met, a compile-time fact and not a run-time error. -/
+def deArray (n : Nat) : Enc → Outcome Bytes
+  | .seq es => if es.length = n then .ok es else .err
+  | .bytes _ => .err
+
+/-- serde's `impl Serialize for [T; N]` (`N ≤ 32`): `serialize_tuple(N)` — an element sequence in every format -/
+def serArray (bs : Bytes) : Enc := .seq bs
+
+/-! ### the JSON routes (what becomes of a JSON value in a byte-container position) -/
+
+/-- a JSON value offered for a byte container: an array of numbers (each `0..=255`) or a string (its bytes) -/
+inductive JsonField where
+  | arr (es : Bytes)
+  | str (s : Bytes)
+  deriving Repr, DecidableEq
+
+/-- the two serde_json entry points: `from_str` / `from_slice` / `from_reader` (text) and `from_value` (a parsed
+`serde_json::Value`) -/
+inductive Route where
+  | text
+  | value
+  deriving Repr, DecidableEq
+
+/-- what `deserialize_bytes` does with the value (serde_json `de.rs` / `value/de.rs`):
+text: `'"'` → `parse_str_raw` → `visit_bytes` / `visit_borrowed_bytes`; `'['` → `deserialize_seq` → `visit_seq`;
+`Value`: `deserialize_bytes = deserialize_byte_buf`: `Value::String(v) => visitor.visit_string(v)`,
+`Value::Array(v) => visit_array(v, visitor)` (→ `visit_seq`, with a size hint).
+`none` = the visitor is called on a method dryoc's visitors do not implement (`visit_string` → default `visit_str`
+→ default `Err(invalid_type)`): the decode fails whatever the container. -/
+def encOfJson : Route → JsonField → Option Enc
+  | _, .arr es => some (.seq es)
+  | .text, .str s => some (.bytes s)
+  | .value, .str _ => none
+
+/-- decode a JSON value in a byte-container position with visitor `de` (`deFixed n`, `deHeap`): -/
+def deJson (de : Enc → Outcome Bytes) (r : Route) (j : JsonField) : Outcome Bytes :=
+  match encOfJson r j with
+  | some e => de e
+  | none => .err
 
 /-- `TryFrom<&[u8]> for StackByteArray<N>` / `HeapByteArray<N>` -/
 def tryFromSlice (n : Nat) (bs : Bytes) : Outcome Bytes := if bs.length ≠ n then .err else .ok bs
